@@ -70,7 +70,7 @@ def observe_section(cid, lines, sync_extra=(), events_extra=()):
     return rec
 
 
-def canonical_section(r, n):
+def canonical_section(r, n, wide=()):
     """n canonical lines with strictly increasing ticks; N lines use lane / open indices only (one note per tick)."""
     out, tick = [], r.choice([0, 0, 7])
     for _ in range(n):
@@ -83,7 +83,11 @@ def canonical_section(r, n):
         elif kind == "S":
             out.append(f"{tstr} = S 2 {ln}{pad}")
         else:
-            out.append(f"{tstr} = E " + r.choice(["solo", "soloend", "x=y", "é♪", "[a]", "a\"b"]) + pad)
+            word = r.choice(["solo", "soloend", "x=y", "é♪", "[a]", "a\"b"])
+            if wide and r.random() < 0.5:
+                c = r.choice(wide)
+                word = r.choice([c, "a" + c, c + "b", "so" + c + "lo"])
+            out.append(f"{tstr} = E " + word + pad)
         tick += r.choice([1, 2, 50, 192, 1000])
     return out
 
@@ -157,8 +161,12 @@ def run(ctx):
         ctx.distinct(ln)
     # the pipeline: whole canonical sections through Chart.from_file, in the order of one long history of the
     # process, with the section's own lines also placed (as foreign lines) in the sync / events sections
+    # (track-event words also carry non-blank code points from the whole code space: zero-width and format characters,
+    #  controls, combining marks, astral planes)
+    from chartgen import wide_chars
+    wide = [c for c in wide_chars(r, ctx.pick(40, 1500)) if not c.isspace()]
     for j in range(ctx.pick(250, 5000)):
-        sec = canonical_section(r, r.choice([1, 3, 8, 20]))
+        sec = canonical_section(r, r.choice([1, 3, 8, 20]), wide=wide)
         mode = r.random()
         sx = r.sample(sec, min(len(sec), r.randrange(0, 4))) if mode < 0.4 else []
         ex = r.sample(sec, min(len(sec), r.randrange(0, 4))) if 0.2 < mode < 0.6 else []
